@@ -89,6 +89,9 @@ def fixed_histories():
         # duration queried before the operations of a nested block (relation hand-off)
         [['add', L('Wait', [0], dur=['fixed', 5.0], ch='ALL')], ['sub', 1, [L('Wait', [0], dur=['fixed', 1.0], ch='ALL'), L('Barrier', [0, 1]), L('Wait', [1], dur=['fixed', 3.0], ch='ALL')]],
          ['add', L('Wait', [1], dur=['fixed', 4.0], ch='ALL')], ['obs', 'duration'], ['obs', 'listing']],
+        # duration of a nested block read AFTER the operations were listed (relation hand-off moves its first operations)
+        [['add', L('Wait', [0], dur=['fixed', 5.0], ch='ALL')], ['sub', 1, [L('Wait', [0], dur=['fixed', 2.0], ch='ALL'), L('Wait', [1], dur=['fixed', 0.5], ch='ALL')]],
+         ['add', L('Wait', [0], dur=['fixed', 1.0], ch='ALL')], ['obs', 'listing'], ['obs', 'duration'], ['obs', 'listing']],
         # an operation added after an observation
         [['add', L('Rx180', [0])], ['obs', 'listing'], ['add', L('CPhase', [0, 1])], ['add', L('DispersiveMeasure', [1], tag='')], ['obs', 'listing'], ['obs', 'acq']],
         # plotting (its own override) between observations, settings different from the drawing's
